@@ -6,7 +6,7 @@ From V.lib Require Import Base.
 From V.c13 Require Import C13Spec C13Model C13Bits C13EscProofs C13MarkProofs
   C13WriterProofs C13ReaderProofs C13RoundTrip C13PlainProofs
   C13ModelExt C13TrailProofs C13FswProofs C13FswRoundTrip C13ByteWriterProofs
-  C13WideProofs C13StickyProofs C13FailProofs C13ExactProofs.
+  C13WideProofs C13StickyProofs C13FailProofs C13ExactProofs C13SpillProofs C13SignedProofs C13UeLoopProofs.
 
 (* ---- emulation prevention, byte level, every byte string ---- *)
 Theorem C13_unescape_escape : forall l : list N, unescape (escape l) = l.
@@ -448,3 +448,58 @@ Example ex_eof_sticky :
   rerr s = true /\ nr_bytes_read s = 2 /\ fst (run_reader [RBits 8; RUe; RSe; RFlag; RMore] s)
   = [VN 0; VN 0; VZ 0; VB false; VMore None].
 Proof. vm_compute. repeat split. Qed.
+
+(* ---- Write for EVERY width up to 64: what exactly is lost when pending + n > 64 ---- *)
+(* the stream receives the n low bits of `bits` preceded by the pending bits with those that do not fit the
+   accumulator beside them (the topmost pending + n - 64) replaced by zeros; nothing else changes *)
+Theorem C13_write_exact_any : forall esc s raw bits n,
+  WInv esc s raw -> n <= 64 ->
+  exists raw',
+    WInv esc (write_gen esc s bits n) raw' /\
+    bytes_to_bits raw' ++ pending (write_gen esc s bits n)
+    = bytes_to_bits raw ++ bits_of (N.to_nat (wn s)) (wv s mod 2 ^ (64 - n)) ++ bits_of (N.to_nat n) bits /\
+    exists added, raw' = raw ++ added /\ Forall (fun b => b < 256) added.
+Proof. exact write_gen_any. Qed.
+Print Assumptions C13_write_exact_any.
+
+Theorem C13_pending_truncated : forall wn0 wv0 n,
+  n <= 64 ->
+  bits_of wn0 (wv0 mod 2 ^ (64 - n))
+  = repeat false (wn0 - N.to_nat (64 - n)) ++ bits_of (Nat.min wn0 (N.to_nat (64 - n))) wv0.
+Proof. exact pending_truncated. Qed.
+Print Assumptions C13_pending_truncated.
+
+(* ---- Reader.ReadSigned: the 64-bit int arithmetic is two's complement for every width 1..64 ---- *)
+Theorem C13_read_signed_twos : forall v n, 1 <= n <= 64 -> v < 2 ^ n ->
+  sext64 v n = (if N.testbit v (n - 1) then (Z.of_N v - 2 ^ Z.of_N n)%Z else Z.of_N v) /\
+  (- 2 ^ (Z.of_N n - 1) <= sext64 v n < 2 ^ (Z.of_N n - 1))%Z.
+Proof. intros v n Hn Hv. exact (conj (sext64_spec v n Hn Hv) (sext64_range v n Hn Hv)). Qed.
+Print Assumptions C13_read_signed_twos.
+
+(* a signed value in range, masked to n bits by Write, comes back through the sign extension *)
+Theorem C13_signed_roundtrip : forall z n, 1 <= n <= 64 ->
+  (- 2 ^ (Z.of_N n - 1) <= z < 2 ^ (Z.of_N n - 1))%Z ->
+  sext64 (Z.to_N (z mod 2 ^ Z.of_N n)) n = z.
+Proof. exact sext64_twos. Qed.
+Print Assumptions C13_signed_roundtrip.
+
+(* ReadSignedGolomb: whatever the stream, the conversions to int do not overflow *)
+Theorem C13_se_fits_int : forall s,
+  (- 9223372036854775807 <= fst (read_se64 s) <= 9223372036854775807)%Z.
+Proof. exact read_se64_fits_int. Qed.
+Print Assumptions C13_se_fits_int.
+
+(* ---- WriteExpGolomb's prefix loop in wrapping uint arithmetic ---- *)
+(* the model's loop (computed in N) is the uint loop for every value below the maximal uint ... *)
+Theorem C13_ue_loop_faithful : forall nr, nr < M64 -> ue_loop64 64 nr 0 0 0 = Some (ue_loop 64 nr 0 0 0).
+Proof. exact ue_loop64_agrees. Qed.
+Print Assumptions C13_ue_loop_faithful.
+
+(* ... and for the maximal uint the loop does not return (finding C13-F2; the repaired code no longer enters it) *)
+Theorem C13_ue_loop_hang_refuted : forall fuel,
+  N.of_nat fuel < 18446744073709551616 -> ue_loop64 fuel M64 0 0 0 = None.
+Proof. exact ue_loop64_diverges. Qed.
+Print Assumptions C13_ue_loop_hang_refuted.
+
+Example ex_signed : sext64 (Z.to_N ((-3) mod 2 ^ 5)) 5 = (-3)%Z /\ sext64 18446744073709551615 64 = (-1)%Z.
+Proof. vm_compute. split; reflexivity. Qed.
